@@ -36,7 +36,7 @@ checks.update({
    note=RM, ref="5 C02"),
  "C04": dict(level="exploration", engine="A", technique=TECH + "; oracle: documented yacc resolution applied to the candidate set of the same run",
    text="Seeded exploration over operator tables, conflict grammars and random CFGs with random precedence: every two-candidate table cell of every run is compared with the documented resolution (level, associativity, %nonassoc error, default shift, earlier rule).",
-   note="Multi-way cells and reduce/reduce between two rules that both carry precedence are not judged; grammars where yacc's and yaccgo's rule-precedence definitions differ are excluded. The expression-level part (parenthesised values vs precedence climbing) is covered through C07/C08 on operator tables, not separately.", ref="5 C04"),
+   note="Multi-way cells and reduce/reduce between two rules that both carry precedence are not judged; grammars where yacc's and yaccgo's rule-precedence definitions differ are excluded. Part (b) compiles operator tables in all five variants and compares grouping / %nonassoc errors of random expressions with a precedence-climbing reference.", ref="5 C04"),
  "C06": dict(level="exploration", engine="B", technique=TECHB + "; faults: truncated feed at every position, unknown codes, mutated tokens; oracle: Earley viable-prefix position",
    text="Seeded exploration with fault injection on the token source: every non-sentence must end in the documented error in every variant (never a crash, a nil result, an accept, or a loop: the driver has a step budget and a divergence watchdog), and for conflict-free grammars after requesting exactly (first non-continuable token)+1 tokens.",
    note=RM + " Non-termination of conflict grammars resolved by default is not judged (the statement promises termination for conflict-free grammars).", ref="5 C06"),
@@ -48,7 +48,7 @@ checks.update({
    note=RM, ref="5 C08"),
  "C11": dict(level="exploration", engine="A", technique=TECH + "; oracle: code assignment rules on the symbol table, constants and translate switch of the file written under the same schedule",
    text="Seeded exploration over token-declaration mixes x map-order schedules x both languages: literal = character code, explicit number kept, all terminal codes distinct and not -1/0, constants exactly for named tokens, translate maps every code to its own symbol and nothing else.",
-   note="Constants and translate cases are read textually from the generated file; the compiled translate/Action are exercised by the engine-B checks.", ref="5 C11"),
+   note="Constants and translate are observed through the compiled generated code (Go: go build; TypeScript: node after type erasure), not by reading the text.", ref="5 C11"),
  "C12": dict(level="exploration", engine="A", technique=TECH + "; faults: one injected grammar defect per case; oracle: reference productivity/definedness",
    text="Seeded exploration: usable grammars of all families must be processed under every schedule and variant; grammars with exactly one injected defect (undefined, rule-less, unproductive, mutually recursive, unreachable, at the start symbol, next to nullable ones, deep) must be refused with a diagnostic and without writing output.",
    note="'Says why' = a non-empty diagnostic that is not a Go runtime error.", ref="5 C12"),
